@@ -1382,7 +1382,7 @@ fn judge(run: &Run, hist: &Hist, i: u64, seed: u64, o: &CaseOut) {
                     }
                     parts.push(format!("never-assigned-bit-read-only-in:{}", rs.into_iter().collect::<Vec<_>>().join("+")));
                 }
-                if o.exp.uv_rba {
+                if o.exp.uv_rba && !o.exp.uv_never {
                     let mut w = vec![];
                     if o.exp.uv_rba_in_cond {
                         w.push("condition");
@@ -1417,7 +1417,8 @@ fn judge(run: &Run, hist: &Hist, i: u64, seed: u64, o: &CaseOut) {
 pub fn main(args: Args) {
     let run = Arc::new(Run::new(
         args.clone(),
-        "exploration",
+        // a replay re-runs one recorded case: not a coverage claim
+        if args.replay.is_some() { "other" } else { "exploration" },
         "AssignLab: one module with 2-4 inputs and 3-9 driven variables (1-8 bits, some unpacked arrays); drivers are assign statements \
          (whole, split ranges), always_comb blocks (default-then-override, every-branch-assigns, branch without else/default, covered by a \
          later assignment, branches writing different bits, constant-bound for loops; if/else-if/else, case, switch), always_ff blocks, \
@@ -1437,6 +1438,7 @@ pub fn main(args: Args) {
     }
     let hist = Arc::new(Hist::default());
     if let Some(rp) = &args.replay {
+        run.set_extra("explanation", json!("replay of one recorded case against the current tree; no coverage is claimed"));
         let v: Json = serde_json::from_str(&std::fs::read_to_string(rp).expect("replay file")).expect("replay json");
         let seed = v["case"]["seed"].as_u64().unwrap_or(args.seed);
         let i = v["case"]["case_index"].as_u64().expect("case_index");
